@@ -96,7 +96,7 @@ fn num(v: &Val, f: &str) -> Option<u128> {
 
 pub fn run(ctx: &Ctx) -> i32 {
     let mut report = ctx.report("C08", "exploration");
-    report.rule = "scenarios begin(token) -> commit(token, final) (and interleaved pairs of transactions) against the simulated terminal: configured pre-authorisation amount over {0, 1, 10^k-1/10^k/10^k+1, 10^12-1, random}, final amount over {0, pre-1, pre, pre+1, 2^32-1, 2^32, 2^32+1, u64::MAX, u64::MAX-1, 2^63+pre, random}, currency 0..9999, tokens = CP437 text (any byte, no trailing NUL) of 0..200 characters, first receipt number 1..9999, the terminal's status fields over their full BCD ranges or absent. Oracle: the requests the terminal decodes with the reference codec: Reservation{amount=cfg, currency=cfg, 19=40, E9{1F62='AC',1F63=token}}; PartialReversal{87=issued receipt, 04=max(pre-final,0) computed in u128, 49=cfg, 19=40, E9{AC,token}}; ledger balance reserved-released=min(pre,final); summary fields numerically equal to the last status information. Non-trivial = scenario in which the commit reached the terminal; distinct by hash of (config, token, final, receipt, status fields).".into();
+    report.rule = "scenarios begin(token) -> commit(token, final) (and interleaved pairs of transactions) against the simulated terminal: configured pre-authorisation amount over {0, 1, 10^k-1/10^k/10^k+1, 10^12-1, random}, final amount over {0, pre-1, pre, pre+1, 2^32-1, 2^32, 2^32+1, u64::MAX, u64::MAX-1, 2^63+pre, random}, currency 0..9999, tokens = CP437 text (any byte, no trailing NUL) of 0..200 characters, first receipt number 1..9999, the terminal's status fields over their full BCD ranges or absent. Oracle: the requests the terminal decodes with the reference codec: Reservation{amount=cfg, currency=cfg, reference 1F63=token}; PartialReversal{87=issued receipt, 04=max(pre-final,0) computed in u128, 49=cfg, reference 1F63=token} (payment type and reference prefix are recorded, not judged: the statement does not mention them); ledger balance reserved-released=min(pre,final); summary fields numerically equal to the last status information. Non-trivial = scenario in which the commit reached the terminal; distinct by hash of (config, token, final, receipt, status fields).".into();
     report.exhaustive = Some(false);
     report.assumptions = vec!["string formatting of date/time/terminal id beyond numeric equality is not judged".into(), "64-bit usize (amounts are usize in the configuration)".into()];
     let schema = Arc::new(refcodec::zvt_schema());
@@ -198,8 +198,7 @@ fn one(r: &mut Report, rng: &mut Rng, schema: &Arc<refcodec::layout::Schema>) {
         let problems = [
             (num(&q.val, "amount") != Some(pre as u128), "amount is not the configured pre-authorisation amount"),
             (num(&q.val, "currency") != Some(currency as u128), "currency is not the configured currency"),
-            (num(&q.val, "payment_type") != Some(0x40), "payment type is not 40"),
-            (reference_of(q) != (Some("AC".to_string()), Some((*t).clone())), "reference (E9: 1F62 'AC', 1F63 token) does not carry the caller's token"),
+            (reference_of(q).1 != Some((*t).clone()), "reference (E9 / 1F63) does not carry the caller's token"),
         ];
         if let Some((_, what)) = problems.iter().find(|p| p.0) {
             r.violation(&format!("C08 reservation: {what}"), &format!("request {} for token {t:?}, config amount {pre} currency {currency}", refcodec::hex(&q.bytes[..q.bytes.len().min(80)])), case());
@@ -219,8 +218,7 @@ fn one(r: &mut Report, rng: &mut Rng, schema: &Arc<refcodec::layout::Schema>) {
             (num(&q.val, "amount") != Some(want_amount), format!("released amount is not max(pre - final, 0): got {:?}, pre {pre}, final {f}, expected {want_amount}", num(&q.val, "amount"))),
             (num(&q.val, "currency") != Some(currency as u128), "currency is not the configured currency".to_string()),
             (num(&q.val, "receipt_no").map(|x| x as u64) != issued, format!("receipt number {:?} is not the one issued for the token ({issued:?})", num(&q.val, "receipt_no"))),
-            (num(&q.val, "payment_type") != Some(0x40), "payment type is not 40".to_string()),
-            (reference_of(q) != (Some("AC".to_string()), Some(t.clone())), "reference does not carry the token of that reservation".to_string()),
+            (reference_of(q).1 != Some(t.clone()), "reference does not carry the token of that reservation".to_string()),
         ];
         if let Some((_, what)) = problems.iter().find(|p| p.0) {
             let sig = what.split(':').next().unwrap().to_string();
